@@ -16,6 +16,8 @@ import PS.Proofs.Programs
 import PS.Proofs.Mass
 import PS.Proofs.CfgBuild
 import PS.Proofs.CfgPrograms
+import PS.Proofs.CfgInfinite
+import PS.Proofs.CfgInfiniteDepth
 namespace PS.G
 open PS
 
@@ -152,6 +154,16 @@ def tbl3 : Table := (closure P3 16 [startNT P3] []).getD []
 /-- … and after `clean` (5 non-terminals) -/
 def T3 : Table := (removeNonReachable (startNT P3) (removeNonProductive tbl3)).getD []
 def tbl4 : Table := (closure P4 3 [startNT P4] []).getD []
+/-- `f : bool -> int`, `true : bool`, request `int`: the only program is `(f true)` -/
+def fS : Sym := Sym.prim "f" (.arrow boolT int)
+def trueS : Sym := Sym.prim "true" boolT
+def P5 : Params := { P2 with prims := [fS, trueS], forbidden := [], request := int }
+def fTrue : Prog := .node fS [leaf trueS]
+/-- a term of depth 6 of the unbounded language of `P2` -/
+def deep : Prog := .node plus [leaf one, .node plus [leaf one, .node plus [leaf one, .node plus [leaf one, good]]]]
+/-- the grammars built by the model of `CFG.infinite` -/
+def GI3 : CFG := (buildTableInf P3 40).getD ⟨startNT P3, []⟩
+def GI5 : CFG := (buildTableInf P5 10).getD ⟨startNT P5, []⟩
 end Example
 
 /-! ### the construction itself: worklist loop + `clean`, for every parameter set
@@ -477,6 +489,236 @@ open Example in
 example : buildTable P3 16 = some ⟨startNT P3, T3⟩ ∧ programs (⟨startNT P3, T3⟩ : CFG) = some 13 ∧
     ((buildTable { P3 with recursive := true } 40).bind programs).isSome = true :=
   ⟨Example.build3, by decide, by decide⟩
+
+/-! ### `CFG.infinite`: the grammar compiled without a depth bound
+
+  Model: PS/Model/CfgInfinite.lean (`buildTableInf` = worklist `closureWith (ruleSetInf P)`, then
+  the same `clean`).  Specification: `wtI` — well-typed applicative terms of ANY depth that respect
+  the forbidden patterns (`wtITop` = every child sees its parent).  All theorems hold for every
+  parameter set and every fuel at which the model returns (`maxDepth`, `minVarDepth` are ignored). -/
+
+/-- **Rule creation of `CFG.infinite` = well-typed terms of every depth.** -/
+theorem C01_infinite_rules_wt (P : Params) (t : Prog) :
+    genW (ruleSetInf P) t (startNT P) = wtI P (effParent P) t none P.request.returns := by
+  have := genW_eq_wtI P t.size t (Nat.le_refl _) P.request.returns [] 0 (fun _ => rfl)
+  simpa [startNT] using this
+
+open Example in
+/-- non-vacuity: rule creation derives a term of depth 6, rejects the forbidden pattern -/
+example : genW (ruleSetInf P2) deep (startNT P2) = true ∧ genW (ruleSetInf P2) bad (startNT P2) = false := by
+  decide
+
+/-- **C01 for `CFG.infinite` — language**: whenever the model of `CFG.infinite` returns a grammar,
+    membership in it is exactly well-typedness at any depth. -/
+theorem C01_infinite_lang (P : Params) (fuel : Nat) (G : CFG) (h : buildTableInf P fuel = some G)
+    (t : Prog) : contains G t = wtI P (effParent P) t none P.request.returns := by
+  obtain ⟨tbl, _, hinv, hstart, _, hclean⟩ := buildTableInf_some P fuel G h
+  have hG : G = ⟨startNT P, G.rules⟩ := by cases G; simp only at hstart; rw [hstart]
+  rw [C01_contains_gen, hG, hclean.lang t,
+    closureWith_gen _ (ruleSetInf_functional P) (startNT P) tbl hinv t.size t (Nat.le_refl _) _
+      (cinvW_start_key _ _ tbl hinv), C01_infinite_rules_wt]
+
+open Example in
+/-- non-vacuity: on `P3` the model of `CFG.infinite` returns a grammar with 3 non-terminals (6
+    before `clean`); it contains a term of depth 6, not the forbidden pattern -/
+theorem Example.buildI3 : buildTableInf P3 40 = some GI3 := eq_some_getD _ _ (by decide)
+open Example in
+example : GI3.rules.length = 3 ∧ (closureWith (ruleSetInf P3) 40 [startNT P3] []).map (·.length) = some 6 ∧
+    contains GI3 deep = true ∧ contains GI3 bad = false := by decide
+
+/-- **C01 for `CFG.infinite` — the statement's language** ("exactly the well-typed terms of every
+    depth that respect the forbidden patterns") when the n-gram is wide enough to hold the parent.
+    Full statement (false for `n_gram ∈ {0,1}`, finding C01-F2, see `finding_C01_F2_infinite`):
+    ∀ P, buildTableInf P fuel = some G → contains G t = wtITop P t. -/
+theorem C01_infinite_lang_partial (P : Params) (fuel : Nat) (G : CFG)
+    (h : buildTableInf P fuel = some G) (hn : P.nGram ≥ 2 ∨ P.nGram < 0) (t : Prog) :
+    contains G t = wtITop P t := by
+  rw [C01_infinite_lang P fuel G h t]
+  have : effParent P = some := by
+    funext p; simp [effParent, hn]
+  rw [this]; rfl
+
+open Example in
+example : buildTableInf P3 40 = some GI3 ∧ (P3.nGram ≥ 2 ∨ P3.nGram < 0) ∧
+    wtITop P3 deep = true ∧ wtITop P3 bad = false := ⟨Example.buildI3, by decide, by decide, by decide⟩
+
+open Example in
+/-- **finding C01-F2** for `CFG.infinite`, on the model: with `n_gram = 1` rule creation derives
+    the term that the statement forbids. -/
+theorem finding_C01_F2_infinite :
+    genW (ruleSetInf P1) bad (startNT P1) = true ∧ wtITop P1 bad = false := by decide
+
+/-- **The unbounded specification is "well typed at some depth bound"**: `wtI` is the union over
+    all depth bounds `D` of the bounded specification `wt` (with variables allowed at every
+    level, `unb P D = { P with maxDepth := D, minVarDepth := 0 }`). -/
+theorem C01_infinite_wt_depth (P : Params) (vis : Sym × Nat → Option (Sym × Nat)) (t : Prog)
+    (parent : Option (Sym × Nat)) (ty : Ty) :
+    wtI P vis t parent ty = true ↔ ∃ D, wt (unb P D) vis t 0 parent ty = true :=
+  wtI_iff_exists_depth P vis t parent ty
+
+open Example in
+/-- non-vacuity: `deep` (depth 6) is well typed with bound 7, not with bound 6 -/
+example : wtI P2 some deep none int = true ∧ wt (unb P2 7) some deep 0 none int = true ∧
+    wt (unb P2 6) some deep 0 none int = false := by decide
+
+/-- **The grammar of `CFG.infinite` is the union of the depth-bounded grammars** (built with
+    `min_variable_depth = 0`): a program is a member iff it is a member of
+    `CFG.depth_constraint(…, max_depth = D, min_variable_depth = 0, …)` for some `D`. -/
+theorem C01_infinite_union (P : Params) (fuel : Nat) (G : CFG) (h : buildTableInf P fuel = some G)
+    (t : Prog) :
+    contains G t = true ↔
+      ∃ D Gd, buildTable (unb P D) (buildFuel (unb P D)) = some Gd ∧ contains Gd t = true := by
+  rw [C01_infinite_lang P fuel G h t, C01_infinite_wt_depth]
+  constructor
+  · rintro ⟨D, hw⟩
+    rcases C01_construction (unb P D) (buildFuel (unb P D)) (Nat.le_refl _) with ⟨Gd, hb, hl⟩ | ⟨_, hl⟩
+    · exact ⟨D, Gd, hb, by rw [hl t]; exact hw⟩
+    · have := hl t
+      change wt (unb P D) (effParent P) t 0 none P.request.returns = false at this
+      rw [this] at hw; cases hw
+  · rintro ⟨D, Gd, hb, hc⟩
+    refine ⟨D, ?_⟩
+    rw [C01_construction_lang (unb P D) _ Gd hb t] at hc
+    exact hc
+
+open Example in
+/-- non-vacuity: `good` (depth 3) is in the depth-3 grammar of `P2`, not in the depth-2 one -/
+example : ((buildTable (unb P2 3) (buildFuel (unb P2 3))).map (fun Gd => contains Gd good)) = some true ∧
+    ((buildTable (unb P2 2) (buildFuel (unb P2 2))).map (fun Gd => contains Gd good)) = some false := by
+  decide
+
+/-- **C01 for `CFG.infinite` — clean**: the grammar starts at the start symbol of the type
+    request, which is a non-terminal and the first key of the table; non-terminals and symbols
+    are distinct; every non-terminal is reachable and productive, every argument of every rule is
+    a non-terminal with depth component 0, and the rules of a non-terminal are exactly the created
+    rules all of whose arguments are productive. -/
+theorem C01_infinite_clean (P : Params) (fuel : Nat) (G : CFG) (h : buildTableInf P fuel = some G) :
+    G.start = startNT P ∧ AList.contains G.start G.rules = true ∧ (AList.keys G.rules).Nodup ∧
+    G.rules.head?.map (·.1) = some G.start ∧
+    ∀ e ∈ G.rules, (AList.keys e.2).Nodup ∧ Reach G e.1 ∧ (∃ t, gen G t e.1 = true) ∧
+      (∀ r ∈ e.2, ∀ a ∈ r.2.1, AList.contains (toNT a) G.rules = true ∧ a.2.2 = 0) ∧
+      (∀ f args, (f, (args, ())) ∈ e.2 ↔
+        (f, args) ∈ ruleSetInf P e.1 ∧ ∀ a ∈ args, ∃ t, genW (ruleSetInf P) t (toNT a) = true) := by
+  obtain ⟨tbl, _, hinv, hstart, hrm, hs⟩ := buildTableInf_some P fuel G h
+  have hG : G = ⟨startNT P, G.rules⟩ := by cases G; simp only at hstart; rw [hstart]
+  have hwf := cinvW_wf _ _ tbl [] hinv
+  have hgen : ∀ nt, nt ∈ AList.keys tbl → ∀ t, gen (⟨startNT P, tbl⟩ : CFG) t nt = genW (ruleSetInf P) t nt :=
+    fun nt hnt t => closureWith_gen _ (ruleSetInf_functional P) (startNT P) tbl hinv t.size t (Nat.le_refl _) nt
+      (mem_keys_iff_contains.mp hnt)
+  have hfirst : tbl.head?.map (·.1) = some (startNT P) := by
+    rcases hinv.first with h1 | ⟨_, h1⟩
+    · exact h1
+    · cases h1
+  refine ⟨hstart, by rw [hstart]; exact mem_keys_iff_contains.mp hs.start_key, hs.wf.keys,
+    by rw [hstart]; exact clean_head (startNT P) tbl G.rules hwf hfirst hrm, ?_⟩
+  intro e he
+  have hk := mem_keys_of_mem he
+  obtain ⟨e0, he0, h1, h2⟩ := hs.sub e he
+  have hrow : e0.2 = rulesDict (ruleSetInf P e.1) := by rw [hinv.rows e0 he0, h1]
+  have hcreated : ∀ r ∈ e.2, (r.1, r.2.1) ∈ ruleSetInf P e.1 := by
+    intro r hr
+    have hm0 := h2 _ hr
+    rw [hrow] at hm0
+    exact rulesDict_lookup_mem _ r.1 _ (lookup_row_of_mem (rulesDict_nodup _) hm0)
+  refine ⟨hs.wf.rows e he, by rw [hG]; exact hs.reachable _ hk, by rw [hG]; exact hs.productive _ hk,
+    fun r hr a ha => ⟨mem_keys_iff_contains.mp (hs.closed e he r hr a ha),
+      ruleSetInf_depth P e.1 _ (hcreated r hr) a ha⟩, ?_⟩
+  have hargs : ∀ r ∈ ruleSetInf P e.1, ∀ a ∈ r.2, toNT a ∈ AList.keys tbl := by
+    intro r hr a ha
+    rcases hinv.closed e0 he0 (toNT a) ((mem_kidsW _ e0.1 _).mpr ⟨r, h1 ▸ hr, a, ha, rfl⟩) with h3 | h3
+    · exact h3
+    · cases h3
+  intro f args
+  constructor
+  · intro hm
+    have hin := hcreated _ hm
+    refine ⟨hin, ?_⟩
+    intro a ha
+    have hka := hs.closed e he _ hm a ha
+    obtain ⟨t, ht⟩ := hs.productive _ hka
+    refine ⟨t, ?_⟩
+    rw [hs.lang_key _ hka t, hgen _ (hargs _ hin a ha) t] at ht
+    exact ht
+  · rintro ⟨hin, hp⟩
+    apply hs.kept e he e0 he0 h1
+    · rw [hrow]
+      exact AList.lookup_some_mem (rulesDict_lookup_of_mem _ (ruleSetInf_functional P e.1) (f, args) hin)
+    · intro a ha
+      obtain ⟨t, ht⟩ := hp a ha
+      exact ⟨t, by rw [hgen _ (hargs _ hin a ha) t]; exact ht⟩
+
+open Example in
+/-- non-vacuity: in the infinite grammar of `P3` the rule for `g` (argument `bool` unproductive) is
+    created for the start symbol but not kept; the rule for `+` is kept -/
+example : (ruleSetInf P3 (startNT P3)).any (fun r => r.1 == gS) = true ∧
+    ((AList.lookup (startNT P3) GI3.rules).getD []).any (fun r => r.1 == gS) = false ∧
+    ((AList.lookup (startNT P3) GI3.rules).getD []).any (fun r => r.1 == plus) = true := by decide
+
+/-- **C01 for `CFG.infinite` — failure**: if the worklist loop has ended and the constructor fails
+    (the KeyError of `clean` on the start symbol), there is no well-typed term of any depth. -/
+theorem C01_infinite_empty (P : Params) (fuel : Nat)
+    (hc : closureWith (ruleSetInf P) fuel [startNT P] [] ≠ none) (h : buildTableInf P fuel = none)
+    (t : Prog) : wtI P (effParent P) t none P.request.returns = false := by
+  rcases buildTableInf_none P fuel h with h1 | ⟨tbl, _, hinv, h2⟩
+  · exact absurd h1 hc
+  · have := clean_none (startNT P) tbl (cinvW_wf _ _ tbl [] hinv) h2 t
+    rw [closureWith_gen _ (ruleSetInf_functional P) (startNT P) tbl hinv t.size t (Nat.le_refl _) _
+      (cinvW_start_key _ _ tbl hinv), C01_infinite_rules_wt] at this
+    exact this
+
+open Example in
+/-- non-vacuity: on `P4` (request `int -> bool`) the loop ends and the constructor fails -/
+example : closureWith (ruleSetInf P4) 40 [startNT P4] [] ≠ none ∧ buildTableInf P4 40 = none := by decide
+
+/-- **C01 for `CFG.infinite` — counting, sound direction**: if `programs()` (on such a table: the
+    non-terminals in dict order, `programsInf`) returns a number, the language is finite and that
+    number is its size. Hence on an infinite language `programs()` answers -1. -/
+theorem C01_infinite_count (P : Params) (fuel : Nat) (G : CFG) (h : buildTableInf P fuel = some G)
+    (n : Nat) (hp : programsInf G = some n) :
+    ∃ L : List Prog, L.Nodup ∧ n = L.length ∧
+      ∀ t, t ∈ L ↔ wtI P (effParent P) t none P.request.returns = true := by
+  obtain ⟨_, _, hnd, _, hall⟩ := C01_infinite_clean P fuel G h
+  have hrows : RowsNodup G := fun nt rs hl => (hall (nt, rs) (AList.lookup_some_mem hl)).1
+  obtain ⟨k, hb, hnk⟩ := programsInf_count G hnd n hp
+  refine ⟨lang G k G.start, lang_nodup G hrows k G.start, by rw [hnk, count_eq_length], ?_⟩
+  intro t
+  rw [mem_lang_of_bounded G hrows k t G.start hb, ← C01_infinite_lang P fuel G h t, C01_contains_gen]
+
+open Example in
+/-- non-vacuity: a DSL without function symbols at the requested type: `programs()` = 2 -/
+example : ((buildTableInf { P5 with request := boolT, constTypes := [boolT] } 10).bind programsInf) = some 2 := by
+  decide
+
+/-- **What `programs()` really answers on a grammar of `CFG.infinite`**: -1 exactly when the
+    language contains an application (the start symbol, first in dict order, has a rule with an
+    argument whose count is not yet known) — NOT exactly when the language is infinite, see
+    `finding_C01_infinite_programs`. -/
+theorem C01_infinite_programs (P : Params) (fuel : Nat) (G : CFG) (h : buildTableInf P fuel = some G) :
+    programsInf G = none ↔ ∃ f k ks, contains G (.node f (k :: ks)) = true := by
+  obtain ⟨_, _, hnd, hfirst, hall⟩ := C01_infinite_clean P fuel G h
+  have hiff := programsInf_none_iff G ⟨hnd, fun e he => (hall e he).1⟩ hfirst
+    (fun nt hnt => by obtain ⟨e, he, rfl⟩ := List.mem_map.mp hnt; exact (hall e he).2.1)
+    (fun nt hnt => by obtain ⟨e, he, rfl⟩ := List.mem_map.mp hnt; exact (hall e he).2.2.1)
+    (fun e he r hr a ha => mem_keys_iff_contains.mpr ((hall e he).2.2.2.1 r hr a ha).1)
+  rw [hiff]
+  constructor
+  · rintro ⟨f, k, ks, hg⟩; exact ⟨f, k, ks, by rw [C01_contains_gen]; exact hg⟩
+  · rintro ⟨f, k, ks, hg⟩; exact ⟨f, k, ks, by rw [C01_contains_gen] at hg; exact hg⟩
+
+open Example in
+/-- non-vacuity: both sides hold on `P3` (infinite language) -/
+example : programsInf GI3 = none ∧ contains GI3 good = true := by decide
+
+open Example in
+/-- **candidate finding (C01, `programs()` / `is_recursive()` of `CFG.infinite`)** on the model:
+    for `f : bool -> int`, `true : bool`, request `int`, every derivation ends within 2 levels and
+    the language is the single program `(f true)`, yet `programs()` answers -1 ("recursive
+    grammar"); the depth-bounded grammar of the same DSL reports 1. -/
+theorem finding_C01_infinite_programs :
+    buildTableInf P5 10 = some GI5 ∧ programsInf GI5 = none ∧
+    bounded GI5 2 GI5.start = true ∧ lang GI5 2 GI5.start = [fTrue] ∧
+    ((buildTable { P5 with maxDepth := 5 } 10).bind programs) = some 1 :=
+  ⟨eq_some_getD _ _ (by decide), by decide, by decide, by decide, by decide⟩
 
 /-! ### non-vacuity and the recorded finding -/
 open Example in
